@@ -126,6 +126,12 @@ func registerVerifrt() {
 	reg("NoMerge", func(m *Machine, c *frame, fn *ssa.Function, a []value) value {
 		return nil
 	})
+	reg("Quiesce", func(m *Machine, c *frame, fn *ssa.Function, a []value) value {
+		if m.sched != nil {
+			m.sched.quiesce()
+		}
+		return nil
+	})
 	reg("Yield", func(m *Machine, c *frame, fn *ssa.Function, a []value) value {
 		if m.sched != nil {
 			m.sched.yield(c, "Yield")
